@@ -18,6 +18,7 @@
 #include <parmcb/spvecgf2.hpp>
 #include <parmcb/spvecfp.hpp>
 #include <deque>
+#include <memory>
 #include <map>
 #include <new>
 #include <set>
@@ -48,23 +49,37 @@ static std::string op_str(const Op &o) {
 }
 
 // ------------------------------------------------------------------ GF(2) machine
+// Abstract coordinates 0..D-1 are realised as GROUPS of real coordinates (sizes given by the configuration; a group of
+// size 1 is a plain coordinate; the last group of the plain configuration is the single huge coordinate 2^40). Every
+// vector that the operation alphabet can build is a union of whole groups, so the reachable abstract space stays 2^D
+// per register while the concrete vectors get long (this is how vectors with dozens of ones, long tails and
+// interleaved operands are reached without leaving exhaustive search).
 struct GF2Machine {
     typedef parmcb::SpVecGF2<std::size_t> V;
     typedef std::vector<std::vector<std::size_t>> State;     // concrete `ones` per register
-    int R, D;                                                // registers, small dimension (coords 0..D-1 plus HUGE)
+    int R, D;                                                // registers, number of groups
+    std::vector<std::vector<std::size_t>> group;             // real coordinates of each group (sorted)
+    std::string cfgname;
     std::vector<Op> ops;
     alignas(V) unsigned char storage[4][sizeof(V)];
     V *reg(int i) { return reinterpret_cast<V*>(storage[i]); }
-    std::vector<uint32_t> ref;                               // dense reference: bit c for coord c, bit D for HUGE
-
-    std::size_t coord(int c) const { return c == D ? HUGE_COORD : (std::size_t) c; }
-    int bit_of(std::size_t c) const { return c == HUGE_COORD ? D : (c < (std::size_t) D ? (int) c : -1); }
+    std::vector<uint32_t> ref;                               // dense reference over groups
+    std::vector<std::vector<std::size_t>> concrete;          // mask -> sorted real coordinates
+    std::vector<std::set<std::size_t>> sets;                 // mask -> std::set of real coordinates
     std::string name() const { return "SpVecGF2"; }
 
-    GF2Machine(int R, int D) : R(R), D(D), ref(R, 0) {
+    // sizes: group sizes; interleaved: real coordinates dealt round-robin instead of consecutively; huge: last group is {2^40}
+    GF2Machine(int R, const std::vector<int> &sizes, bool interleaved, bool huge, const std::string &cfgname) : R(R), D((int) sizes.size()), cfgname(cfgname), ref(R, 0) {
+        group.resize(D);
+        std::vector<int> left = sizes; std::size_t next = 0; int total = 0; for (int x : sizes) total += x;
+        if (huge) { group[D - 1].push_back(HUGE_COORD); total -= left[D - 1]; left[D - 1] = 0; }
+        if (!interleaved) { for (int c = 0; c < D; ++c) for (int k = 0; k < left[c]; ++k) group[c].push_back(next++); }
+        else { int placed = 0; while (placed < total) for (int c = 0; c < D; ++c) if (left[c] > 0) { group[c].push_back(next++); --left[c]; ++placed; } }
+        concrete.resize(1u << D); sets.resize(1u << D);
+        for (uint32_t m = 0; m < (1u << D); ++m) { for (int c = 0; c < D; ++c) if (m >> c & 1) for (auto x : group[c]) sets[m].insert(x); concrete[m].assign(sets[m].begin(), sets[m].end()); }
         for (int i = 0; i < R; ++i) new (storage[i]) V();
-        for (int i = 0; i < R; ++i) for (int c = 0; c <= D; ++c) ops.push_back({K_UNIT, i, 0, 0, c});
-        for (int i = 0; i < R; ++i) for (long s = 0; s < (1 << (D + 1)); ++s) ops.push_back({K_SET, i, 0, 0, s});
+        for (int i = 0; i < R; ++i) for (int c = 0; c < D; ++c) if (group[c].size() == 1) ops.push_back({K_UNIT, i, 0, 0, c});
+        for (int i = 0; i < R; ++i) for (long m = 0; m < (1 << D); ++m) ops.push_back({K_SET, i, 0, 0, m});
         for (int i = 0; i < R; ++i) ops.push_back({K_DEFCTOR, i, 0, 0, 0});
         for (int i = 0; i < R; ++i) for (int j = 0; j < R; ++j) if (i != j) { ops.push_back({K_COPYCTOR, i, j, 0, 0}); ops.push_back({K_MOVECTOR, i, j, 0, 0}); }
         for (int i = 0; i < R; ++i) for (int j = 0; j < R; ++j) { ops.push_back({K_COPYASSIGN, i, j, 0, 0}); ops.push_back({K_MOVEASSIGN, i, j, 0, 0}); ops.push_back({K_ADDEQ, i, j, 0, 0}); }
@@ -75,20 +90,15 @@ struct GF2Machine {
 
     State initial() { return State(R); }
     State read() { State s(R); for (int i = 0; i < R; ++i) s[i] = reg(i)->ones; return s; }
-    void restore(const State &s) {
-        for (int i = 0; i < R; ++i) { reg(i)->~V(); new (storage[i]) V(); reg(i)->ones = s[i]; ref[i] = 0; for (auto c : s[i]) ref[i] |= 1u << bit_of(c); }
-    }
-    std::vector<std::set<std::size_t>> sets;   // all index sets over the alphabet, built once
-    const std::set<std::size_t>& set_of(long mask) {
-        if (sets.empty()) { sets.resize(1 << (D + 1)); for (long m = 0; m < (1 << (D + 1)); ++m) for (int c = 0; c <= D; ++c) if (m >> c & 1) sets[m].insert(coord(c)); }
-        return sets[mask];
-    }
+    uint32_t mask_of(const std::vector<std::size_t> &v) const { uint32_t m = 0; for (int c = 0; c < D; ++c) if (std::binary_search(v.begin(), v.end(), group[c][0])) m |= 1u << c; return m; }
+    void restore(const State &s) { for (int i = 0; i < R; ++i) { reg(i)->~V(); new (storage[i]) V(); reg(i)->ones = s[i]; ref[i] = mask_of(s[i]); } }
+    int parity(uint32_t m) const { std::size_t t = 0; for (int c = 0; c < D; ++c) if (m >> c & 1) t += group[c].size(); return (int) (t & 1); }
 
     void apply(const Op &o) {
         V *ri = reg(o.i);
         switch (o.kind) {
-        case K_UNIT: ri->~V(); new (storage[o.i]) V(coord((int) o.arg)); ref[o.i] = 1u << o.arg; break;
-        case K_SET: { const auto &s = set_of(o.arg); ri->~V(); new (storage[o.i]) V(s); ref[o.i] = (uint32_t) o.arg; break; }
+        case K_UNIT: ri->~V(); new (storage[o.i]) V(group[o.arg][0]); ref[o.i] = 1u << o.arg; break;
+        case K_SET: ri->~V(); new (storage[o.i]) V(sets[o.arg]); ref[o.i] = (uint32_t) o.arg; break;
         case K_DEFCTOR: ri->~V(); new (storage[o.i]) V(); ref[o.i] = 0; break;
         case K_COPYCTOR: ri->~V(); new (storage[o.i]) V(*reg(o.j)); ref[o.i] = ref[o.j]; break;
         case K_MOVECTOR: ri->~V(); new (storage[o.i]) V(std::move(*reg(o.j))); ref[o.i] = ref[o.j];
@@ -107,28 +117,31 @@ struct GF2Machine {
             V &v = *reg(i);
             std::vector<std::size_t> it(v.begin(), v.end());
             if (it != v.ones) { cls = "iteration"; return "iteration of r" + std::to_string(i) + " differs from its stored coordinates"; }
-            uint32_t got = 0;
-            for (size_t k = 0; k < it.size(); ++k) {
-                if (k && !(it[k - 1] < it[k])) { cls = "not-canonical"; return "r" + std::to_string(i) + " lists coordinates not in strictly increasing order"; }
-                int b = bit_of(it[k]);
-                if (b < 0) { cls = "wrong-content"; return "r" + std::to_string(i) + " contains foreign coordinate " + std::to_string(it[k]); }
-                got |= 1u << b;
-            }
-            if (got != ref[i]) { cls = "wrong-content"; char b[128]; snprintf(b, sizeof b, "r%d has coordinate set 0x%x, dense model 0x%x", i, got, ref[i]); return b; }
-            if (v.size() != (std::size_t) __builtin_popcount(ref[i])) { cls = "size"; return "size() of r" + std::to_string(i) + " is wrong"; }
+            for (size_t k = 1; k < it.size(); ++k) if (!(it[k - 1] < it[k])) { cls = "not-canonical"; return "r" + std::to_string(i) + " lists coordinates not in strictly increasing order (" + std::to_string(it[k - 1]) + " before " + std::to_string(it[k]) + ")"; }
+            if (it != concrete[ref[i]]) { cls = "wrong-content"; char b[160]; snprintf(b, sizeof b, "r%d lists %zu coordinates, dense model (group mask 0x%x) has %zu, or they differ", i, it.size(), ref[i], concrete[ref[i]].size()); return b; }
+            if (v.size() != concrete[ref[i]].size()) { cls = "size"; return "size() of r" + std::to_string(i) + " is wrong"; }
         }
         for (int i = 0; i < R; ++i) for (int j = 0; j < R; ++j) {
-            int got = *reg(i) * *reg(j), want = __builtin_popcount(ref[i] & ref[j]) & 1;
+            int got = *reg(i) * *reg(j), want = parity(ref[i] & ref[j]);
             if (got != want) { cls = "dot-product"; return "r" + std::to_string(i) + "*r" + std::to_string(j) + " = " + std::to_string(got) + ", parity of common coordinates " + std::to_string(want); }
         }
-        for (int i = 0; i < R; ++i) for (long s = 0; s < (1 << (D + 1)); ++s) {
-            int got = *reg(i) * set_of(s), want = __builtin_popcount(ref[i] & (uint32_t) s) & 1;
-            if (got != want) { cls = "set-product"; char b[128]; snprintf(b, sizeof b, "r%d * set(0x%lx) = %d, expected %d", i, s, got, want); return b; }
+        for (int i = 0; i < R; ++i) for (uint32_t m = 0; m < (1u << D); ++m) {
+            int got = *reg(i) * sets[m], want = parity(ref[i] & m);
+            if (got != want) { cls = "set-product"; char b[128]; snprintf(b, sizeof b, "r%d * set(groups 0x%x) = %d, expected %d", i, m, got, want); return b; }
         }
         return "";
     }
-    std::string cfg() const { return "class=SpVecGF2;R=" + std::to_string(R) + ";D=" + std::to_string(D); }
+    std::string cfg() const { return "class=SpVecGF2;cfg=" + cfgname; }
 };
+
+// "gf2:R:D" = D plain coordinates plus the huge one; "gf2g:R:s0-s1-..[:i]" = groups of the given sizes, consecutive or interleaved
+static GF2Machine *make_gf2(const std::string &cfg) {
+    auto t = vr::split(cfg, ':');
+    int Rn = atoi(t[1].c_str());
+    if (t[0] == "gf2") { int D = atoi(t[2].c_str()); return new GF2Machine(Rn, std::vector<int>(D + 1, 1), false, true, cfg); }
+    std::vector<int> sizes; for (auto &x : vr::split(t[2], '-')) sizes.push_back(atoi(x.c_str()));
+    return new GF2Machine(Rn, sizes, t.size() > 3 && t[3] == "i", false, cfg);
+}
 
 // ------------------------------------------------------------------ F_p machine
 template<class P>
@@ -288,7 +301,7 @@ int main(int argc, char **argv) {
     if (A.has("replay-case")) {
         auto kv = parse_kv(A.get("replay-case"));
         int Rn = atoi(kv["R"].c_str()), D = atoi(kv["D"].c_str());
-        if (kv["class"] == "SpVecGF2") { GF2Machine m(Rn, D); return replay(R, m, kv["ops"]); }
+        if (kv["class"] == "SpVecGF2") { std::unique_ptr<GF2Machine> m(make_gf2(kv["cfg"])); return replay(R, *m, kv["ops"]); }
         long p = atol(kv["p"].c_str());
         if (kv["P"] == "int") { FPMachine<int> m(Rn, D, p, "int"); return replay(R, m, kv["ops"]); }
         if (kv["P"] == "long") { FPMachine<long> m(Rn, D, p, "long"); return replay(R, m, kv["ops"]); }
@@ -303,7 +316,7 @@ int main(int argc, char **argv) {
     auto work = [&](uint64_t u, uint64_t) {
         auto t = vr::split(cfgs[u], ':');
         Totals tot;
-        if (t[0] == "gf2") { GF2Machine m(atoi(t[1].c_str()), atoi(t[2].c_str())); bfs(R, m, tot, max_states); }
+        if (t[0] == "gf2" || t[0] == "gf2g") { std::unique_ptr<GF2Machine> m(make_gf2(cfgs[u])); bfs(R, *m, tot, max_states); }
         else if (t[1] == "int") { FPMachine<int> m(atoi(t[3].c_str()), atoi(t[4].c_str()), atol(t[2].c_str()), "int"); bfs(R, m, tot, max_states); }
         else if (t[1] == "long") { FPMachine<long> m(atoi(t[3].c_str()), atoi(t[4].c_str()), atol(t[2].c_str()), "long"); bfs(R, m, tot, max_states); }
         else { FPMachine<boost::multiprecision::cpp_int> m(atoi(t[3].c_str()), atoi(t[4].c_str()), atol(t[2].c_str()), "cpp_int"); bfs(R, m, tot, max_states); }
